@@ -90,8 +90,8 @@ def classifiedRaiseSites : List Site := [
   u "rattr/models/context/_context.py" "Context.clear" "TypeError" "never called",
   u "rattr/models/context/_context.py" "Context.update" "TypeError" "never called",
   u "rattr/models/context/_root_context.py" "compile_root_context" "TypeError" "ast.parse always returns a Module",
-  u "rattr/models/context/_root_context.py" "RootContextBuilder.visit_starred_relative_import" "ValueError" "derive_module_name_from_path of the file being analysed is never None",
-  u "rattr/models/context/_root_context.py" "RootContextBuilder.visit_relative_import" "ValueError" "derive_module_name_from_path of the file being analysed is never None",
+  r "rattr/models/context/_root_context.py" "RootContextBuilder.visit_starred_relative_import" "ValueError" "K23",
+  r "rattr/models/context/_root_context.py" "RootContextBuilder.visit_relative_import" "ValueError" "K23",
   u "rattr/models/symbol/_symbol.py" "Symbol.__attrs_pre_init__" "NotImplementedError" "only concrete subclasses are instantiated",
   u "rattr/models/symbol/_symbol.py" "Symbol.__lt__" "TypeError" "symbols are only sorted among themselves",
   u "rattr/models/symbol/_symbol.py" "AnyCallInterface.from_fn_def" "NotImplementedError" "never called on AnyCallInterface",
@@ -128,8 +128,17 @@ def libraryRows : List (String × String) := [
   ("K8-frozen", "FileNotFoundError in read.__enter__: spec.origin == 'frozen' for stdlib modules at follow level 3"),
   ("K12", "re.error from re.compile on a malformed -x / -F pattern"),
   ("K20", "UnicodeDecodeError / SyntaxError(U+FEFF) in read + ast.parse: source files are read as UTF-8 text ignoring coding cookie and BOM"),
-  ("K21", "RecursionError in resolve_import on a re-export cycle a <-> b")
+  ("K21", "RecursionError in resolve_import on a re-export cycle a <-> b"),
+  ("K24", "RuntimeError('Symlink loop from …') in pathlib.Path.resolve, called by isort.place_module from is_in_stdlib: an import whose first component is a directory symlink loop below the working directory"),
+  ("K25", "IsADirectoryError / FileNotFoundError / FileExistsError in write_cache_file: `-C PATH` with a PATH that cannot be written (a directory, a dangling link, a file in the way of its directory)")
 ]
+
+/-- K23 (reported by a reviewer, confirmed): the `raise ValueError  # … so never here` of the two relative-import
+visitors IS reachable: `derive_module_name_from_path(current_file)` answers `None` whenever no right-suffix of the
+file's dotted path is an importable module — the target lies outside the module search path
+(`rattr ../other/t.py`, `rattr /abs/elsewhere/t.py`), below a directory that is no identifier (`a.b/t.py`), or has
+no `.py` suffix — and the file holds a relative import (`from .x import y`, `from .x import *`). -/
+def k23Note : String := "visit_relative_import / visit_starred_relative_import: derive_module_name_from_path(current file) is None"
 
 /-- K22 (found while proving the names invariant of §3): `unbind_name` raises `ValueError("never")`
 when a Name whose basename is `getattr` / `hasattr` / `setattr` / `delattr` (`names_of` keeps the
